@@ -106,7 +106,7 @@ def rows_oracle(kv, p, us, nd, get):
 
 def run(ctx):
     ctx.build_repo()
-    from pyiga import bspline
+    from pyiga import bspline, assemble_tools
     ctx.require_lean(['Pyiga.Props.C02', 'Pyiga.Props.C02Full', 'drv_c02'])
     ctx.audit(['Pyiga.Props.C02', 'Pyiga.Props.C02Full'], THEOREMS, MODULES)
     if ctx.tier == 'thorough':
@@ -121,7 +121,8 @@ def run(ctx):
     ctx.rule = ('random open knot vectors: degree 0..12, 1..8 spans, dyadic spans with ratios up to 2^40 / eighths / arbitrary doubles / uniform, interior '
                 'multiplicities 1..p; points: every breakpoint, its two adjacent doubles, both ends, midpoints, random interior points; derivative orders '
                 '0..p+2; scalar, contiguous and strided array arguments; routes: active_deriv, active_ev, single_ev, collocation(_info), '
-                'collocation_derivs(_info), ev/deriv (splev), BSplineFunc.grid_eval/jacobian/hessian/pointwise_* in 1-D and 2-D.  '
+                'collocation_derivs(_info), assemble_tools.compute_values_derivs (dense table read by the assemblers), ev/deriv (splev), '
+                'BSplineFunc.grid_eval/jacobian/hessian/pointwise_*/__call__ in 1-D and 2-D, also with int64/int32/float32 coefficient arrays.  '
                 'non-trivial = degree >= 1 and >= 2 spans.  plus a probe of degrees 13..16 (C int `fac`).')
     # ---- probe (subprocess, first): scipy's splev(der>=1) supports degree <= 5 only (FITPACK splder) and kills the interpreter beyond;
     # bspline.deriv used to delegate to it for every degree (repaired in /repo 3311b35).  Only if the probe passes is
@@ -201,7 +202,12 @@ def run(ctx):
         kvd = plist(k, frac)
         us = points_for(rng, k, p, nrand=3)
         if len(us) > 12:
-            us = np.ascontiguousarray(us[np.sort(rng.permutation(len(us))[:12])])
+            # every breakpoint (interior knots of every multiplicity, both ends) stays; the rest is sampled
+            mesh_pts = np.unique(k)
+            rest = us[~np.isin(us, mesh_pts)]
+            rest = rest[np.sort(rng.permutation(len(rest))[:max(5, 12 - len(mesh_pts))])]
+            us = np.concatenate((mesh_pts, rest))
+            us = np.ascontiguousarray(us[rng.permutation(len(us))])
         m = len(us)
         nd = int(rng.integers(0, p + 3))
         ctx.case(('kv', p, tuple(k.tolist()), nd), nontrivial=(p >= 1 and len(np.unique(k)) >= 3))
@@ -279,7 +285,39 @@ def run(ctx):
                 raise ValueError('derivative matrices have different sparsity')
             return nd, parts[0][0], np.stack([q[1] for q in parts])
 
-        routes = [('active_deriv', r_active_deriv(False)), ('active_deriv[strided]', r_active_deriv(True)),
+        def r_cvd():
+            # the dense table the assemblers read: axes (basis function, grid point, derivative)
+            T = np.asarray(assemble_tools.compute_values_derivs(KV, us, nd))
+            if T.shape != (KV.numdofs, m, nd + 1) or not T.flags['C_CONTIGUOUS']:
+                raise ValueError('shape/layout')
+            if isinstance(fa, str):
+                raise ValueError('first_active_at failed')
+            V = np.empty((nd + 1, m, p + 1))
+            for j in range(m):
+                rows = np.arange(fa[j], fa[j] + p + 1)
+                if fa[j] < 0 or fa[j] + p + 1 > KV.numdofs:
+                    raise IndexError('first active index out of range')
+                out = np.delete(T[:, j, :], rows, axis=0)
+                if np.any(out != 0):
+                    raise ValueError('nonzero entries outside the p+1 active rows')
+                V[:, j, :] = T[rows, j, :].T
+            return nd, None, V
+
+        def cvd_oracle():
+            T = np.asarray(assemble_tools.compute_values_derivs(KV, us, nd))
+            for j, u in enumerate(us):
+                s_, ex = cox_oracle(k, p, u, nd)
+                for kk in range(nd + 1):
+                    scale = max([abs(x) for x in ex[kk]] + [Fraction(1, 10 ** 300)])
+                    for i_ in range(KV.numdofs):
+                        want = ex[kk][i_ - (s_ - p)] if s_ - p <= i_ <= s_ else Fraction(0)
+                        if not np.isfinite(T[i_, j, kk]) or abs(Fraction(float(T[i_, j, kk])) - want) > Fraction(1, 10 ** 9) * scale:
+                            return ('compute_values_derivs(kv, grid, %d)[%d, %d, %d] = %r at grid point %r, Cox-de Boor %r'
+                                    % (nd, i_, j, kk, float(T[i_, j, kk]), float(u), float(want)))
+            return None
+
+        routes = [('compute_values_derivs', r_cvd),
+                  ('active_deriv', r_active_deriv(False)), ('active_deriv[strided]', r_active_deriv(True)),
                   ('active_deriv[scalar]', r_active_deriv_scalar), ('active_ev', r_active_ev), ('active_ev[scalar]', r_active_ev_scalar),
                   ('collocation_info', r_coll_info), ('collocation', r_coll), ('collocation_derivs_info', r_cdi),
                   ('collocation_derivs', r_cd)]
@@ -294,12 +332,14 @@ def run(ctx):
                     except Exception as ex:
                         return 'implementation raised %s: %s' % (type(ex).__name__, str(ex)[:200])
                     return None
-                S.add('rows 0 0 0 0 0', 'impl-%s' % (res if isinstance(res, str) else fa), nm, raises, info)
+                S.add('rows 0 0 0 0 0', 'impl-%s' % (res if isinstance(res, str) else fa), nm,
+                      cvd_oracle if nm == 'compute_values_derivs' else raises, info)
                 continue
             ndi, idx, V = res
             idx = fa if idx is None else idx
             names.append(nm)
-            oracles.append(rows_oracle(k, p, us, ndi, lambda j, idx=idx, V=V: (idx[j], V[:, j, :])))
+            oracles.append(cvd_oracle if nm == 'compute_values_derivs' else
+                           rows_oracle(k, p, us, ndi, lambda j, idx=idx, V=V: (idx[j], V[:, j, :])))
             sets.append('%d %s %s' % (ndi, plist(idx), plist(np.ascontiguousarray(V).ravel(), frac)))
         if sets:
             S.add('rows %d %d %s %s %d %s' % (p, nd, kvd, usd, len(sets), ' '.join(sets)),
@@ -339,15 +379,32 @@ def run(ctx):
             c = rng.integers(-8, 9, size=KV.numdofs).astype(float)
         else:
             c = rng.normal(size=KV.numdofs) * 10.0 ** rng.integers(-2, 3)
+        # the same coefficient values also stored with a non-float64 dtype (BSplineFunc keeps the dtype it is given):
+        # integers -> int64 / int32, otherwise float32 (the float64 coefficients are the exact float32 values)
+        if np.all(c == np.round(c)):
+            cv = c.astype(np.int64 if rng.integers(0, 2) else np.int32)
+        else:
+            c = c.astype(np.float32).astype(float)
+            cv = c.astype(np.float32)
+        assert np.array_equal(cv.astype(float), c)
+        dtn = str(cv.dtype)
         cd = plist(c, frac)
         Fn = bspline.BSplineFunc(KV, c)
+        Fv = bspline.BSplineFunc(KV, cv)
         # bspline.deriv for p >= 6 is called in-process only if the subprocess probe above found it safe
         kmax_spl = min(p, 3) if (p <= 5 or deriv_safe) else 0
         sroutes = [('splev[der=%d]' % kk, F_SPLEV, kk, (lambda kk=kk: bspline.ev(KV, c, us) if kk == 0 else bspline.deriv(KV, c, kk, us)))
                    for kk in range(kmax_spl + 1)]
         sroutes += [('grid_eval', F_TP, 0, lambda: Fn.grid_eval((us,))), ('grid_jacobian', F_TP, 1, lambda: Fn.grid_jacobian((us,))),
                     ('grid_hessian', F_TP, 2, lambda: Fn.grid_hessian((us,))), ('pointwise_eval', F_TP, 0, lambda: Fn.pointwise_eval((us,))),
-                    ('pointwise_jacobian', F_TP, 1, lambda: Fn.pointwise_jacobian((us,)))]
+                    ('pointwise_jacobian', F_TP, 1, lambda: Fn.pointwise_jacobian((us,))),
+                    ('ev[%s]' % dtn, F_SPLEV, 0, lambda: bspline.ev(KV, cv, us)),
+                    ('grid_eval[%s]' % dtn, F_TP, 0, lambda: Fv.grid_eval((us,))),
+                    ('grid_jacobian[%s]' % dtn, F_TP, 1, lambda: Fv.grid_jacobian((us,))),
+                    ('grid_hessian[coeff-dtype]', F_TP, 2, lambda: Fv.grid_hessian((us,))),
+                    ('pointwise_eval[%s]' % dtn, F_TP, 0, lambda: Fv.pointwise_eval((us,))),
+                    ('pointwise_jacobian[%s]' % dtn, F_TP, 1, lambda: Fv.pointwise_jacobian((us,))),
+                    ('__call__[%s]' % dtn, F_TP, 0, lambda: Fv(us))]
         names, oracles, sets = [], [], []
         for nm, fct, kk, fn in sroutes:
             def f(fn=fn):
@@ -376,6 +433,7 @@ def run(ctx):
             x2 = np.ascontiguousarray(x2[np.sort(rng.permutation(len(x2))[:4])])
             C2 = rng.integers(-5, 6, size=(KV.numdofs, KV2.numdofs)).astype(float)
             F2 = bspline.BSplineFunc((KV, KV2), C2)
+            F2v = bspline.BSplineFunc((KV, KV2), C2.astype(np.int64))       # integer coefficient array, same values
             info2 = {'kv1': k.tolist(), 'p1': p, 'kv2': k2.tolist(), 'p2': p2, 'coeffs': C2.tolist(), 'x1': x1.tolist(), 'x2': x2.tolist()}
             orc = make_tp_oracle(k, p, k2, p2, C2, x1, x2)
             G1, G2 = np.meshgrid(x1, x2, indexing='ij')
@@ -388,7 +446,12 @@ def run(ctx):
                        ('grid_hessian[2d,yy]', 2, 0, lambda: F2.grid_hessian((x1, x2))[..., 2]),
                        ('pointwise_eval[2d]', 0, 0, lambda: F2.pointwise_eval((G2, G1))),
                        ('pointwise_jacobian[2d,x]', 0, 1, lambda: F2.pointwise_jacobian((G2, G1))[..., 0]),
-                       ('pointwise_jacobian[2d,y]', 1, 0, lambda: F2.pointwise_jacobian((G2, G1))[..., 1])]
+                       ('pointwise_jacobian[2d,y]', 1, 0, lambda: F2.pointwise_jacobian((G2, G1))[..., 1]),
+                       ('grid_eval[2d,int64]', 0, 0, lambda: F2v.grid_eval((x1, x2))),
+                       ('grid_jacobian[2d,x,int64]', 0, 1, lambda: F2v.grid_jacobian((x1, x2))[..., 0]),
+                       ('grid_hessian[coeff-dtype]', 1, 1, lambda: F2v.grid_hessian((x1, x2))[..., 1]),
+                       ('pointwise_eval[2d,int64]', 0, 0, lambda: F2v.pointwise_eval((G2, G1))),
+                       ('pointwise_jacobian[2d,y,int64]', 1, 0, lambda: F2v.pointwise_jacobian((G2, G1))[..., 1])]
             names, oracles, sets = [], [], []
             for nm, d1, d2, fn in troutes:
                 def f(fn=fn):
